@@ -24,6 +24,20 @@ def solver_for(axioms, timeout_ms):
     return s
 
 
+def cross_check(ob, axioms, timeout_s=10):
+    """thorough tier: the full query of an obligation z3 5.1 proved, put to the two other installed solvers through the SMT-LIB dump.
+    -> {"cvc5": "unsat"|"sat"|"unknown", "z3-4.8.12": ...}; `sat` from either is a disagreement the check reports as checker-unhealthy."""
+    s2 = z3.Solver()
+    s2.add(*axioms)
+    s2.add(*ob.hyps)
+    s2.add(z3.Not(ob.goal))
+    out = {}
+    for which, label in (("cvc5", "cvc5-1.0.3"), ("z3old", "z3-4.8.12")):
+        r = external(s2, which, timeout_s)
+        out[label] = "unknown" if r is None else ("unsat" if r[0] == "proved" else "sat")
+    return out
+
+
 def check(ob, axioms, timeout_ms=None):
     """-> (verdict, backend, ms, model-or-reason). hyps of the obligation = axioms + ob.hyps.
     1. ground pass: quantified hypotheses dropped (weaker hypotheses: `unsat` is a proof; `sat` gives a candidate model)
